@@ -259,6 +259,14 @@ func (s *Schema) pickCon(typ string, o *GenOpts, depth int) *Def {
 	return ok[o.R.Intn(len(ok))]
 }
 
+// GenType generates a value of a type expression (used for results of functions).
+func (s *Schema) GenType(t *TypeExpr, o *GenOpts) *Value {
+	if o.Costs == nil {
+		o.Costs = s.ComputeCosts()
+	}
+	return s.genType(t, o, 1)
+}
+
 func (s *Schema) genType(t *TypeExpr, o *GenOpts, depth int) *Value {
 	if t.Vector {
 		n := o.vecLen(depth)
